@@ -1341,6 +1341,9 @@ pub fn compile_to_ast(
     retrigger_compilation: Option<Arc<AtomicBool>>,
     experimental: ExperimentalFeatures,
 ) -> Result<Programs, ErrorEmitted> {
+    #[cfg(feature = "fuellabs_sway_verif")]
+    let mut verif_cache_guard =
+        verif_hooks::cache::CompileGuard::new(build_config, retrigger_compilation.clone());
     check_should_abort(handler, retrigger_compilation.clone())?;
 
     let query_engine = engines.qe();
@@ -1348,6 +1351,8 @@ pub fn compile_to_ast(
     if let Some(config) = build_config {
         let path = config.canonical_root_module();
         let include_tests = config.include_tests;
+        #[cfg(feature = "fuellabs_sway_verif")]
+        verif_hooks::cache::parse_decision(engines, &path, include_tests, build_config);
         // Check if we can re-use the data in the cache.
         if is_parse_module_cache_up_to_date(engines, &path, include_tests, build_config) {
             let mut entry = query_engine.get_programs_cache_entry(&path).unwrap();
@@ -1356,6 +1361,8 @@ pub fn compile_to_ast(
             let (warnings, errors, infos) = entry.handler_data;
             let new_handler = Handler::from_parts(warnings, errors, infos);
             handler.append(new_handler);
+            #[cfg(feature = "fuellabs_sway_verif")]
+            verif_hooks::cache::CompileGuard::set_outcome(&mut verif_cache_guard, "reused");
             return Ok(entry.programs);
         };
     }
@@ -1435,6 +1442,11 @@ pub fn compile_to_ast(
 
     check_should_abort(handler, retrigger_compilation.clone())?;
 
+    #[cfg(feature = "fuellabs_sway_verif")]
+    verif_hooks::cache::CompileGuard::set_outcome(
+        &mut verif_cache_guard,
+        if programs.typed.is_ok() { "ok" } else { "tyerr" },
+    );
     Ok(programs)
 }
 
